@@ -230,7 +230,9 @@ def run(ctx):
     check_prepare_arguments(ctx, "R6")
     # "either writes the object as is or raises PrepareDumpError": the exception funnel of the pre-flight stage is the
     # same structural clause C08 decides (every exception of the prepare stage leaves dump_one / dump_many converted)
-    ctx.borrow("c08", {"R2": "R7"})
+    # ... and "writes the object as is": the evaluated guard matrix (same object / error / announced copy per format
+    # and object class) is the value-level form of R2 / R3
+    ctx.borrow("c08", {"R2": "R7", "R5": "R8"})
 
 def deref_attr(func, node):
     return node
